@@ -128,7 +128,11 @@ fn private_is_dirty(
                         // files change from targets to sources as a project evolves.
                         log_debug!("{}  converted target -> source {:?}", depth, f.id());
                         f.is_generated = false;
-                        f.failed_runid = Some(0);
+                        // Not a failure: the stamp mismatch alone keeps it dirty,
+                        // and a checksummed target must keep reporting
+                        // "rebuild me first, then look again" when it is
+                        // reached a second time during the same check.
+                        f.failed_runid = None;
                         f.save(ptx)?;
                         f.refresh(ptx)?;
                         debug_assert!(!f.is_generated());
